@@ -59,8 +59,8 @@ def check(run):
         a, b = tabs['pyclifford'][what], tabs['torchclifford'][what]
         run.check(a == b and a, 'R12.port', (K.TC_P, 'paulialg'), what, '%s differ between the packages: %r vs %r' % (what, a, b))
     # ---- permutations
-    pa = {n: parallel.permutation_loop(repo.func(K.PY_U, n)) for n in ('map_to_state', 'state_to_map')}
-    pb = {n: parallel.permutation_slices(repo.func(K.TC_U, n)) for n in ('map_to_state', 'state_to_map')}
+    pa = {n: parallel.permutation_any(repo.func(K.PY_U, n)) for n in ('map_to_state', 'state_to_map')}
+    pb = {n: parallel.permutation_any(repo.func(K.TC_U, n)) for n in ('map_to_state', 'state_to_map')}
     for n in pa:
         A = sorted(sorted((ft, fv) for ft, fv, _, _ in v) for v in pa[n].values())
         B = sorted(sorted((ft, fv) for ft, fv, _, _ in v) for v in pb[n].values())
@@ -150,7 +150,7 @@ def check(run):
     run.floor('R18.port', 30)
     run.floor('R9.block', 3)
     run.floor('R16', 20)
-    run.floor('R11.gate', 10)
+    run.floor('R11.gate', 64)
     run.decide('normal forms, tables, permutations, kernel records, guards / blocks, circuit wiring, signatures and result classes agree '
                'between the packages; no pure result discarded; crash-free torch namesakes')
     run.decline('numerical equality in general; the vectorised re-implementations with a different algorithm (phase accumulation of '
